@@ -406,6 +406,67 @@ def _norm(case: dict) -> dict:
     return c
 
 
+def _rule_tables(fresh, paths, seen) -> dict:
+    """What every single registered rule does, measured through the real lint_file: for each file a new Orchestrator (new
+    rule instances) whose registry is cut down to ONE of its instances at a time; whether lint_file gets as far as
+    _execute_rules; finalize() per instance of a new registry / after a sequential pass over all files / over the files
+    the raw-path test lets through.  Nothing of lint_file is transcribed here."""
+    from src.core.base import BaseLintRule
+
+    def overrides(rule) -> bool:
+        # Python semantics of "the class of the instance overrides finalize": some class before BaseLintRule in the MRO defines it
+        for k in type(rule).__mro__:
+            if k is BaseLintRule:
+                return False
+            if "finalize" in vars(k):
+                return True
+        return False
+
+    def registry_of(o):
+        o._ensure_rules_discovered()
+        if not isinstance(o.registry._rules, dict) or list(o.registry._rules.values()) != o.registry.list_all():
+            raise RuntimeError("RuleRegistry no longer keeps its instances in the dict _rules")
+        return o.registry._rules
+
+    out = {"rule_out": [], "vis": []}
+    o = fresh()
+    first = list(registry_of(o).items())
+    out["rule_ids"] = [rid for rid, _ in first]
+    out["rules"] = [overrides(r) for _, r in first]
+    out["rule_fin_nil"] = [[enc_violation(v) for v in r.finalize()] for _, r in first]
+    for p in paths:
+        o = fresh()
+        insts = list(registry_of(o).items())
+        if [rid for rid, _ in insts] != out["rule_ids"]:
+            raise RuntimeError("rule discovery order differs between two Orchestrators of one process")
+        reached = []
+        o._execute_rules = lambda rules, ctx: (reached.append(len(rules)), [])[1]      # instance attribute: this object only
+        try:
+            o.lint_file(p)
+        except Exception:  # noqa: BLE001
+            pass
+        del o._execute_rules
+        out["vis"].append(bool(reached))
+        row = []
+        for rid, inst in insts:
+            o.registry._rules = {rid: inst}
+            vs, _err = _try(lambda: o.lint_file(p))
+            row.append(vs)
+        out["rule_out"].append(row)
+
+    def fin_after(which):
+        o = fresh()
+        try:
+            for p in which:
+                o.lint_file(p)
+            return [[enc_violation(v) for v in r.finalize()] for r in registry_of(o).values()]
+        except Exception:  # noqa: BLE001 - a file raises: the sequential run raises as well, the table is not consulted
+            return [[] for _ in first]
+    out["rule_fin_full"] = fin_after(paths)
+    out["rule_fin_seen"] = out["rule_fin_full"] if all(seen) else fin_after([p for p, ok in zip(paths, seen) if ok])
+    return out
+
+
 def run_impl(case: dict) -> dict:
     """measure the tables and both runs for one case (own process: nested process pools are created here)"""
     import random
@@ -549,6 +610,13 @@ def run_impl(case: dict) -> dict:
                     gs = [j for j in g if res["seen"][j]]
                     if gs != g and gs:
                         res["group_reports"].append([gs, report_over(gs)])
+            # ---- rule-instance level tables (Model/OrchParRules.v): per registered rule class, in registry order
+            res["rules"] = None
+            if group_paths is None:
+                try:
+                    res.update(_rule_tables(fresh, paths, res["seen"]))
+                except Exception as e:  # noqa: BLE001 - reported as a broken obligation by run()
+                    res["rules_error"] = f"{type(e).__name__}: {str(e)[:200]}"
             res["failures"] = drain_failures()
             res["served"] = []
             if case["serve_seed"] is not None and len(paths) >= 2 and hasattr(core, "_lint_file_worker"):
@@ -674,11 +742,21 @@ def coq_case(case: dict, impl: dict) -> str:
     groups = coq.coq_list([_nats(g) for g in impl.get("groups", [])])
     greps = coq.coq_list([f"({_nats(k)}, {_nats(it.ids(v))})" for k, v in impl.get("group_reports", [])])
     served = coq.coq_list([f"({t}, " + ("None" if o is None else f"Some {_nats(it.ids(o))}") + ")" for t, o in impl.get("served", [])])
+    measured = impl.get("rules") is not None
+    if measured:
+        rules = coq.coq_list([coq.coq_bool(b) for b in impl["rules"]])
+        rule_out = coq.coq_list([coq.coq_list(["None" if vs is None else f"Some {_nats(it.ids(vs))}" for vs in row]) for row in impl["rule_out"]])
+        vis = coq.coq_list([coq.coq_bool(b) for b in impl["vis"]])
+        fins = [coq.coq_list([_nats(it.ids(vs)) for vs in impl[k]]) for k in ("rule_fin_nil", "rule_fin_full", "rule_fin_seen")]
+    else:
+        rules, rule_out, vis, fins = "[]", "[]", "[]", ["[]", "[]", "[]"]
+    rl = (f"c_rules_measured := {coq.coq_bool(measured)}; c_rules := {rules}; c_rule_out := {rule_out}; c_vis := {vis}; "
+          f"c_rule_fin_nil := {fins[0]}; c_rule_fin_full := {fins[1]}; c_rule_fin_seen := {fins[2]}; ")
     vtab = coq.coq_list([_coq_violation(v) for v in it.items])
     cmd = coq.coq_option(case.get("cmd"), coq.coq_string)
     return ("judge orchpar_actual {| c_vtab := " + vtab + ";\n c_perfile := " + perfile + "; c_rep_nil := " + rep_nil +
             "; c_rep_full := " + rep_full + "; c_seen := " + seen + "; c_rep_seen := " + rep_seen + "; c_groups := " + groups + "; c_group_reports := " + greps + f"; c_mw := {coq.coq_option(case['k'])}; c_cpu := {impl['cpu']}; c_sched := {_nats(impl['sched'])}; "
-            f"c_ordered := {coq.coq_bool(impl['ordered'])}; c_cmd := {cmd}; c_served := {served}; c_seq := {seq}; c_par := {par}; "
+            f"c_ordered := {coq.coq_bool(impl['ordered'])}; c_cmd := {cmd}; c_served := {served}; " + rl + f"c_seq := {seq}; c_par := {par}; "
             f"c_seq_exit := {impl['seq_exit']}; c_par_exit := {impl['par_exit']} |}}")
 
 
@@ -859,6 +937,10 @@ def run(tier: str, seed: int, replay: str | None = None) -> int:
         for note in impl["notes"]:
             if note not in chk.notes:
                 chk.notes.append(note)
+        if impl.get("rules_error"):
+            msg = "Harness:the rule-instance level tables could not be measured (" + impl["rules_error"] + ")"
+            if msg not in chk.broken:
+                chk.broken.append(msg)
         if impl["failures"]:
             chk.violation({"reason": "a rule failed internally (swallowed exception) during the run", "failures": impl["failures"][:3], "case": case})
             continue
@@ -878,6 +960,8 @@ def run(tier: str, seed: int, replay: str | None = None) -> int:
         cand = [bool(b) for b in ver[4:4 + nc_]]
         err_explained = bool(ver[4 + nc_]) if len(ver) > 4 + nc_ else False
         served_ok = bool(ver[5 + nc_]) if len(ver) > 5 + nc_ else True
+        rules_seq_ok = bool(ver[6 + nc_]) if len(ver) > 6 + nc_ else True
+        rules_par_ok = bool(ver[7 + nc_]) if len(ver) > 7 + nc_ else True
         info = {"case": case, "observed": _summary(case, impl), "candidates_matching_impl": [nm for nm, ok in zip(names, cand) if ok]}
         if not dom:
             chk.violation({"reason": "a measured violation is not a well-formed Violation record (field list differs from src/core/types.py) "
@@ -893,6 +977,24 @@ def run(tier: str, seed: int, replay: str | None = None) -> int:
             continue
         if not seq_ok:
             chk.correspondence_broken({"level": "observable", "detail": "lint_files differs from concat(per-file results in fresh processes) ++ finalize report", **info})
+        if impl.get("rules") is not None:
+            chk.traces_validated += 2
+            chk.dist("rule_level_tables:measured")
+            chk.dist("registered_rules", len(impl["rules"]))
+            chk.dist("rules_overriding_finalize", sum(1 for b in impl["rules"] if b))
+            chk.dist("lint_file_reaches_rules:" + ("all files" if all(impl["vis"]) else "no file" if not any(impl["vis"]) else "some files"))
+        else:
+            chk.dist("rule_level_tables:" + ("several groups" if impl.get("groups") else "unavailable"))
+        if not rules_seq_ok:
+            chk.correspondence_broken({"level": "rule instances", "detail": "lint_files differs from Model/OrchParRules.v rseq_run on the per-rule tables (every "
+                                       "registered rule alone on every file through lint_file, finalize() per instance): the rules of one file do not report "
+                                       "in registry order one after the other, a rule's report depends on what its instance saw before, a rule that does not "
+                                       "override finalize reports from it, or the finalize loop is not the registry in order",
+                                       "rule_ids": impl.get("rule_ids"), **info})
+        if not rules_par_ok:
+            chk.correspondence_broken({"level": "rule instances", "detail": "lint_files_parallel differs from Model/OrchParRules.v rpar_run on the per-rule tables "
+                                       "(fresh instances per task, the parent feeds the instances picked by Gen parent_rule_selection, then finalizes all)",
+                                       "rule_ids": impl.get("rule_ids"), **info})
         if err_explained and not cand[0] and ideal_ok and not spec_ok:
             # sequential raises, parallel returns: theorem C07_errors_swallowed.  What the parallel run returns in this class
             # has no sequential counterpart; when a file raises, the finalize() table cannot be measured, so a tree in which
